@@ -209,13 +209,20 @@ def harness(sub, cases, env=None, timeout=900, args=()):
     p = subprocess.run([exe, sub] + list(args), input=data, stdout=subprocess.PIPE, stderr=subprocess.PIPE,
                        timeout=timeout, env=e)
     res = []
+    tagged = {}
     for line in p.stdout.decode().splitlines():
         line = line.strip()
         if line:
             try:
-                res.append(json.loads(line))
+                x = json.loads(line)
             except ValueError:
-                res.append({"garbled": line[:200]})
+                x = {"garbled": line[:200]}
+            if isinstance(x, dict) and "_i" in x:
+                tagged[x["_i"]] = x["r"]
+            else:
+                res.append(x)
+    if tagged:
+        res = [tagged.get(i) for i in range(len(cases))]
     info = {"rc": p.returncode, "stderr": p.stderr.decode("utf-8", "replace")[-4000:]}
     while len(res) < len(cases):
         res.append(None)
@@ -320,7 +327,7 @@ def parse_nat_list(out, marker):
     return [int(x) for x in re.split(r"[;\s]+", body) if x.strip()]
 
 
-def coq_eval_sharded(header, case_terms, result_expr, shards=None, per_shard=400, timeout=1200):
+def coq_eval_sharded(header, case_terms, result_expr, shards=None, per_shard=400, timeout=1200, case_type=None):
     """Evaluate `result_expr` (a Coq function from the case type to bool) over case_terms, in
     parallel shards.  Returns (list of failing case indices, errors)."""
     from concurrent.futures import ThreadPoolExecutor
@@ -331,7 +338,7 @@ def coq_eval_sharded(header, case_terms, result_expr, shards=None, per_shard=400
     idxs = [list(range(k, n, nshards)) for k in range(nshards)]
 
     def run(k):
-        body = "Definition cases := %s.\n" % cq_list([case_terms[i] for i in idxs[k]])
+        body = "Definition cases%s := %s.\n" % ((" : list (%s)" % case_type) if case_type else "", cq_list([case_terms[i] for i in idxs[k]]))
         body += "Definition M := Eval vm_compute in mismatches (map (%s) cases).\nPrint M.\n" % result_expr
         rc, out, path = coq_eval(header, body, timeout=timeout, name="cases%d" % k)
         l = parse_nat_list(out, "M")
